@@ -325,12 +325,14 @@ def faLoop : FaSt → List Bytes → Except Err FaSt
     | .ok s' => faLoop s' ls
     | .error e => .error e
 
+/-- the end of the loop (repaired behaviour): the pending record is flushed when its buffer is non-empty OR a record
+    was already emitted, so a last header without a sequence is a record of length 0 that goes through the ordinary
+    width check; nothing collected at all (one single header without a sequence included) is "no record" -/
 def faFinish (s : FaSt) : Except Err (List FaRecord) :=
-  if s.buf.length > 0 then
+  if s.buf.length > 0 ∨ s.counter > 0 then
     if s.counter > 0 ∧ s.buf.length ≠ s.width then .error .faDiffLen
     else .ok (s.recs ++ [faRec s])
-  else if s.counter = 0 then .error .faEmpty
-  else .ok s.recs
+  else .error .faEmpty
 
 def faMap : List FaRecord → List (Bytes × FaRecord) → List (Bytes × FaRecord)
   | [], m => m
